@@ -33,6 +33,7 @@ type Reader struct {
 	objStmCache map[int]*core.ObjectStream // Cache for object streams
 	fileSize    int64
 	pageTree    *pages.PageTree // Cached page tree
+	loading     map[int]bool    // Objects currently being parsed (guards against self-referencing /Length)
 }
 
 // Ensure Reader implements pages.ObjectResolver
@@ -182,6 +183,18 @@ func (r *Reader) GetObject(objNum int) (core.Object, error) {
 	if !entry.InUse {
 		return nil, fmt.Errorf("object %d is not in use", objNum)
 	}
+
+	// Parsing an object can re-enter GetObject (an indirect /Length). A request
+	// for an object that is still being parsed can never be satisfied: the file
+	// refers to itself, and following it would recurse until memory runs out.
+	if r.loading[objNum] {
+		return nil, fmt.Errorf("object %d refers to itself while being loaded", objNum)
+	}
+	if r.loading == nil {
+		r.loading = make(map[int]bool)
+	}
+	r.loading[objNum] = true
+	defer delete(r.loading, objNum)
 
 	var obj core.Object
 	var err error
